@@ -189,3 +189,22 @@ CHECKS["C19"] = {
         {"name": "histories", "run": "^TestC19Histories$", "kind": "rapid", "checks": {"quick": 6000, "thorough": 120000}, "shards": {"quick": 8, "thorough": 16}},
     ],
 }
+
+CHECKS["C12"] = {
+    "pkg": "props/c12",
+    "level": "exploration",
+    "rule": "chains: EVERY sequence of length 1..5 (thorough 1..7) over the seven behaviours {return, Next, Abort, Next;Abort, Abort;Next, Next;Next, AbortWithStatus} as the handler chain of a route, executed through Engine.ServeHTTP (19,607 / 960,799 programs, distinct by construction); non-trivial = length >= 2 with at least one Next and one Abort-family behaviour. "
+            "assembly: rapid-generated interleavings of Use / Group(prefix[, mw]) / route registration / NoRoute / NoMethod on group trees of depth <= 3, HandleMethodNotAllowed on/off, probed with matched, wrong-method and unmatched requests; non-trivial = a Use after a route registration; distinct by FNV-64 of the op list.",
+    "assumptions": [
+        "chains stay below the documented 63-handler limit",
+        "middleware an ancestor group receives AFTER a descendant group was created is accepted either way for routes of that descendant (the statement pins down middleware attached 'before a route is registered'; hertz copies the ancestors' middleware when a group is created)",
+    ],
+    "level_text": "Complete enumeration of handler chains up to the stated length against a reference interpreter of the onion rule plus the statement's predicates checked directly on the trace; random exploration of group assembly against the chain each route must have.",
+    "level_note": "Exhaustive within the chain-length bound; trusts the 30-line reference interpreter (cross-checked by the direct predicates).",
+    "technique": "bounded-exhaustive enumeration against a reference interpreter + rapid-generated group assembly programs",
+    "nontrivial_floor": 1000,
+    "units": [
+        {"name": "chains", "run": "^TestC12Chains$", "kind": "plain", "shards": {"quick": 4, "thorough": 16}},
+        {"name": "assembly", "run": "^TestC12Assembly$", "kind": "rapid", "checks": {"quick": 4000, "thorough": 80000}, "shards": {"quick": 4, "thorough": 16}},
+    ],
+}
